@@ -440,6 +440,31 @@ func e2eBehaviour(c *e2eCtx) error {
 			c.violate("C01,C14", "goat track failed: "+lastLine(run.Stderr), rp(map[string]any{"stderr": tail(run.Stderr, 1500)}))
 			return
 		}
+		// one scenario in three goes through a patch round before it is observed: insert markers in
+		// library files, `goat patch` (ids renumbered, service-start blocks re-applied exactly once)
+		if i%3 == 2 {
+			tree := proj.ReadTree(src)
+			var libs []string
+			for _, pth := range goFilesOf(tree, cfg) {
+				inMain := strings.HasPrefix(pth, "cmd/zdrv/")
+				for _, pk := range p.Pkgs {
+					if pk.IsMain && filepath.Dir(pth) == filepath.Clean(pk.Dir) {
+						inMain = true
+					}
+				}
+				if !inMain && pth != filepath.Join(cfg.PkgPath, "goat_generated.go") {
+					libs = append(libs, pth)
+				}
+			}
+			if len(libs) > 0 && addInserts(tree, libs, r, 1+r.Intn(2)) > 0 {
+				writeFiles(src, tree, libs)
+				c.count("patch-round-before-observation")
+				if pr := proj.RunGoat(c.goat, src, nil, "patch"); pr.Exit != 0 || isPanic(pr.Stderr) {
+					c.violate("C10,C14", "goat patch failed on insert markers in library files: "+lastLine(pr.Stderr), rp(map[string]any{"stderr": tail(pr.Stderr, 1500)}))
+					return
+				}
+			}
+		}
 		if ok, out := buildMains(src, binI, rb); !ok {
 			c.count("instrumented-build-failed(C01)")
 			c.violate("C01,C14", "instrumented project does not build: "+firstLine(out, ""), rp(map[string]any{"build": tail(out, 1500)}))
@@ -448,7 +473,7 @@ func e2eBehaviour(c *e2eCtx) error {
 		var mainFiles []string
 		for _, pk := range p.Pkgs {
 			if pk.IsMain {
-				mainFiles = append(mainFiles, filepath.Join(pk.Dir, "main.go"))
+				mainFiles = append(mainFiles, filepath.Join(pk.Dir, pk.Entry()))
 			}
 		}
 		mainFiles = append(mainFiles, "cmd/zdrv/main.go")
